@@ -24,7 +24,8 @@ REQUIRED = ["iff_checked:plurality", "iff_checked:approval", "iff_checked:superm
             "truth:winners_did_not_win", "margin_tally_holds_write_in_votes",
             "style_mean_rechecked_after_scoring_cards_lacking_the_contest", "card_count_revised_after_assertions_were_made",
             "margin_checked:contest_level_call_with_confirmed_assertions", "assertions_built_by_make_all_assertions",
-            "candidate_names_contained_in_one_another", "contest_carries_a_reported_tally_when_assertions_are_made"]
+            "candidate_names_contained_in_one_another", "contest_carries_a_reported_tally_when_assertions_are_made",
+            "tally_taken_together_with_a_contest_of_another_n_winners"]
 ASSUMPTIONS = ["shares f in {1/2,1/4,1/8} (f and 1/(2f) both dyadic) are exact in binary; inexact shares (2/3, 0.6) are only evaluated at a "
                "distance from the threshold that rounding cannot bridge", "a mark for a name that is not on the contest's "
                "candidate list (write-in) appears only on ballots with no mark for a listed candidate, so that no "
@@ -361,8 +362,14 @@ def run_case(prof, rec):
         ok, _ = rec.guard("c02.call:Contest.tally", Contest.tally, {"con": con}, cvrs, False)
         if ok:
             cmp_margin("contest_tally_rules_off", con.tally, kind != "supermajority" or not multi_mark)
-        # (c) Contest.tally with rules enforced
-        ok, _ = rec.guard("c02.call:Contest.tally", Contest.tally, {"con": con}, cvrs, True)
+        # (c) Contest.tally with rules enforced - tabulated together with another contest of the same cards whose number of
+        #     winners differs (one call tabulates every contest handed to it, each by its own rules)
+        other = Contest.from_dict({"id": "zz-other", "name": "zz-other", "risk_limit": 0.05, "cards": len(cvrs),
+                                   "choice_function": Contest.SOCIAL_CHOICE_FUNCTION.PLURALITY,
+                                   "n_winners": 1 if len(winners) > 1 else 3, "candidates": ["p", "q", "r", "s"],
+                                   "winner": ["p"] if len(winners) > 1 else ["p", "q", "r"]})
+        rec.count("tally_taken_together_with_a_contest_of_another_n_winners")
+        ok, _ = rec.guard("c02.call:Contest.tally", Contest.tally, {"con": con, "zz-other": other}, cvrs, True)
         if ok:
             cmp_margin("contest_tally_rules_on", con.tally, (kind == "supermajority") or not has_overvote)
             # (d) the contest-level call on the same tally, in the state an audit leaves the objects in: margins hold
